@@ -130,7 +130,8 @@ claim("C15",
 _KERNEL_NOTE = ("Trusted: the Obara-Saika/HGP recurrences as written in DESIGN.md 2.2 (target-relative form in gbsa/stencil_spec.py); numpy "
                 "indexing/broadcasting semantics as modelled by the label-carrying evaluator gbsa/stencil.py; sympy simplify; assembly is C09's. "
                 "COVER (that every table entry reaching the result is computed - a deleted recursion step is not a wrong store) is decided by replaying the "
-                "extracted index regions of stores/loads/gathers for all size parameters up to 3 (2 for the ERI kernel; 4 in the thorough tier): bounded in the sizes.")
+                "extracted index regions of stores/loads/gathers for all size parameters up to 3 (2 for the ERI kernel; 4 in the thorough tier): bounded in the sizes. "
+                "A recursion step written as a common part followed by in-place increments on sub-slices is checked region by region (sum of the parts covering each region).")
 
 claim("C01",
       "recurrence (stencil) extraction + coefficient-wise conformance by computer algebra; axis-provenance typing of the kernel; closed-form check of the norms",
@@ -172,7 +173,7 @@ claim("C08",
       "one (adjoint fill, not in place). The momentum kernel is the first-derivative table (recurrence D, overlap start, padding) "
       "selected with rows e_x, e_y, e_z in this order as the last axis; the three stacked components of the angular-momentum kernel are, "
       "as formal products of 1-D integrals, S_k (M1_{k+1} D1_{k+2} - M1_{k+2} D1_{k+1}) with first moments about the literal coordinate "
-      "origin and every factor selected with its own direction's component columns; contraction once per shell; contract K. The public wrapper(s) are covered too: parameters are used as given on every path (no filtered, re-ordered, scaled or defaulted copy; INPUTS), the Cartesian / spherical / mixed / transformed routes are dispatched through the four assembly methods with identical keywords (DISPATCH), and every return of the kernel chain derives from the recursion (MPT). Exactness as "
+      "origin and every factor selected with its own direction's component columns; contraction once per shell; contract K. Scalar branches over shell data are followed on both outcomes; a path that computes the momentum integrals with the two shells exchanged must restore the sign of the integration by parts (PARITY). A positive-threshold flush of an intermediate of the shared recursion is a finding (FLUSH). The public wrapper(s) are covered too: parameters are used as given on every path (no filtered, re-ordered, scaled or defaulted copy; INPUTS), the Cartesian / spherical / mixed / transformed routes are dispatched through the four assembly methods with identical keywords (DISPATCH), and every return of the kernel chain derives from the recursion (MPT). Exactness as "
       "numbers is not decided.",
       _KERNEL_NOTE + " Hermiticity of -i grad and -i r x grad in exact arithmetic.", "DESIGN.md 2.2, 2.8, 3 (C08)")
 
